@@ -1,4 +1,5 @@
 import HecsModel.Model.Query
+import HecsModel.Model.Guards
 import HecsModel.Model.Proto
 import HecsModel.Spec.World
 /-
@@ -77,8 +78,46 @@ def showOptItem : Option Item → String
   | none => "-"
   | some i => showItem i
 
+/-! ### queries that alias a unique borrow within themselves (C05)
+
+`assert_borrow::<Q>()` rejects them wherever the borrow is not checked dynamically (`query_mut`,
+`view_mut`, `query_one(_mut)`, `query_many_mut`, `EntityRef::query`, `PreparedQuery::query_mut` /
+`view_mut`); the dynamically checked paths (`query`, `view`, `PreparedQuery::query`) refuse them when
+the conflicting borrows are actually attempted, i.e. on a non-empty archetype the query prepares on. -/
+
+/-- paths that run `assert_borrow` -/
+def assertingPaths : List String :=
+  ["mut", "mut_batched", "view_mut", "many_v", "one", "one_mut", "eref", "many", "many_w", "prepared_mut",
+   "prepared_view", "many_pv"]
+
+/-- paths that borrow dynamically -/
+def dynamicPaths : List String := ["iter", "batched", "view", "many_vb", "prepared"]
+
+/-- two borrows of one list touch the same type and one of them is unique -/
+def selfConflict (l : List (Nat × Bool)) : Bool :=
+  l.zipIdx.any (fun p => l.zipIdx.any (fun r => p.2 != r.2 && p.1.1 == r.1.1 && (p.1.2 || r.1.2)))
+
+/-- the dynamic check fires: some non-empty archetype the query prepares on makes it borrow one column twice,
+once uniquely -/
+def dynConflict (w : World) (q : Q) : Bool :=
+  w.archs.toList.any (fun ar => ar.rows.size > 0 && q.prepares ar.types && selfConflict (q.borrowList ar.types))
+
+/-- `some answer` when the query aliases itself and that decides the outcome on this path -/
+def aliasAnswer (q : Q) (path : String) (exists_ : Option Bool) (dyn : Bool) : Option String :=
+  if q.assertBorrowOk then none
+  else if path == "one" || path == "eref" then
+    -- the handle is looked up first
+    some (if exists_ == some false then "nosuch" else "panic")
+  else if assertingPaths.contains path then some "panic"
+  else if dynamicPaths.contains path && dyn then some "panic"
+  else none
+
 /-- the model's answer for a query line -/
 def answer (w : World) (q : Q) (path : String) (args : List String) : Except String String :=
+  match aliasAnswer q path (((field args "h").bind entity?).map (fun e => (w.get e).isSome)) (dynConflict w q) with
+  | some a => .ok a
+  | none => answerPlain w q path args
+where answerPlain (w : World) (q : Q) (path : String) (args : List String) : Except String String :=
   let hs := ((field args "hs").bind entities?).getD []
   let h := (field args "h").bind entity?
   match path with
@@ -149,6 +188,14 @@ def specMatching (s : SpecW) (q : Q) : List (Entity × Item) :=
 
 /-- (S) for a query line: the implementation's answer against the abstract map -/
 def specCheck (s : Spec.SpecW) (q : Q) (path : String) (args : List String) (rhs : String) : Except String Unit :=
+  -- C05: a query that aliases a unique borrow within itself is always rejected
+  let dyn := s.live.any (fun p => q.sat (p.2.map (·.1)) && selfConflict (q.borrowList (sortNat (p.2.map (·.1)))))
+  match aliasAnswer q path (((field args "h").bind entity?).map (fun e => s.contains e)) dyn with
+  | some a =>
+    if rhs.trimAscii.toString == a then .ok ()
+    else .error s!"a query aliasing a unique borrow within itself: expected {a} on path {path}"
+  | none =>
+  if rhs.trimAscii.toString == "panic" then .error "operation panicked inside hecs" else
   let want := specMatching s q
   let hs := ((field args "hs").bind entities?).getD []
   let h := (field args "h").bind entity?
